@@ -225,7 +225,14 @@ def unit_fresh(U):
             U.prove("C09.infer_dialect.fresh[%s]#p%d" % (dname, p.index), "two inferences of the same text return equal dialects that share neither the dict nor its 'order' list", [], z3.BoolVal(bool(ok)), {}, replay=replay)
 
 
-UNITS = [("fresh", unit_fresh), ("prebuilt", unit_prebuilt), ("line.kv", _unit_line(("k=v", 'k="v"'))), ("line.sp", _unit_line(('k "v"', "k v"))), ("vote", unit_vote), ("window", unit_window)]
+def unit_route(U):
+    """the format decides the importer, and a dialect supplied to create_db is the dialect the lines are parsed with and the
+    one the database reports (the route clause of C03, shared)"""
+    from props import C03
+    C03.unit_route(U, prefix="C09.route")
+
+
+UNITS = [("route", unit_route), ("fresh", unit_fresh), ("prebuilt", unit_prebuilt), ("line.kv", _unit_line(("k=v", 'k="v"'))), ("line.sp", _unit_line(('k "v"', "k v"))), ("vote", unit_vote), ("window", unit_window)]
 try:
     from standins import C09 as _S
     UNITS = UNITS + list(_S.UNITS)
